@@ -270,7 +270,11 @@ def tlc(module, cfg, workers=None, simulate=None, depth=None, seed=None, env=Non
     if rc == 124:
         raise Broken("TLC timed out after %ss on %s/%s" % (timeout, module, cfg))
     if not ok_exit and r.violation is None:
-        raise Broken("TLC failed rc=%s on %s/%s:\n%s" % (rc, module, cfg, out[-5000:]))
+        k = out.find("Semantic errors")
+        if k < 0:
+            k = out.find("***Parse Error***")
+        msg = out[k:k + 1500] if k >= 0 else out[-2000:]
+        raise Broken("TLC failed rc=%s on %s/%s:\n%s" % (rc, module, cfg, msg))
     if r.states == 0 and not simulate and r.violation is None:
         raise Broken("TLC reported no states on %s/%s:\n%s" % (module, cfg, out[-3000:]))
     return r
